@@ -14,6 +14,7 @@ require (
 	github.com/cosmos/cosmos-sdk v0.50.10
 	github.com/decred/dcrd/dcrec/secp256k1/v4 v4.2.0
 	github.com/ethereum/go-ethereum v1.10.26
+	github.com/gorilla/websocket v1.5.3
 	github.com/tyler-smith/go-bip39 v1.1.0
 	golang.org/x/crypto v0.26.0
 	golang.org/x/text v0.17.0
@@ -107,7 +108,6 @@ require (
 	github.com/googleapis/gax-go/v2 v2.12.5 // indirect
 	github.com/gorilla/handlers v1.5.2 // indirect
 	github.com/gorilla/mux v1.8.1 // indirect
-	github.com/gorilla/websocket v1.5.3 // indirect
 	github.com/grpc-ecosystem/go-grpc-middleware v1.4.0 // indirect
 	github.com/grpc-ecosystem/grpc-gateway v1.16.0 // indirect
 	github.com/gsterjov/go-libsecret v0.0.0-20161001094733-a6f4afe4910c // indirect
